@@ -187,6 +187,8 @@ class StmtMixin:
                 value = VReal(value)
             elif isinstance(value, int):
                 value = VInt(z3.IntVal(value))
+            elif z3.is_expr(value):
+                value = VRaw(value)
             else:
                 raise Unsupported("ghost value")
         old = env.get(name)
